@@ -24,7 +24,9 @@ RULE = ("programs x cache configurations (data and instruction cache) x modes, a
         "representations, memory table, SVG values, metrics text) is called on one twin only; after every step the full "
         "state snapshot and the result of EVERY inspection function must be equal in both twins (observed on deep copies, "
         "so the uninspected twin really sees no inspection call). non-trivial = the inspected run had >= 1 data-cache eviction, or >= 5 inspection calls "
-        "between two steps; distinct = hash(case)")
+        "between two steps; distinct = hash(case)"
+        ' Around every group of inspection calls a fingerprint of all plain-data class attributes / module globals of t'
+        'he package must be unchanged (state shared by all simulations cannot be seen by twins).')
 ASSUMPTIONS = [
     "execution-time lines of the metrics text are wall-clock dependent and removed before comparison",
     "observation for the comparison is done on deep copies, so neither twin is perturbed by the comparison itself",
